@@ -19,7 +19,12 @@
                           document path of the mapping plus the field, and the
                           schema path of the rule;
   * `C02_purge_unknown` — after the purge pass only schema fields are left, and
-                          schema fields are all kept.
+                          schema fields are all kept;
+  * `C02_purge_unknown_order` — the purge keeps the order of the document and is
+                          idempotent;
+  * `C02_purge_readonly` — a successful purge of readonly fields removes exactly
+                          the items of fields whose `readonly` is truthy, keeps
+                          the order, and met no unresolved rules reference.
 -/
 import Cerberus.Model.Normalize
 namespace Cerberus
@@ -145,6 +150,93 @@ theorem C02_purge_unknown (rs : RSchema) (m : List (Key × Val)) :
   · intro kv h; simpa using (List.mem_filter.mp h).2
   · intro kv h1 h2; exact List.mem_filter.mpr ⟨h1, by simpa using h2⟩
 
+/-- **purge unknown keeps the order and is idempotent**: the surviving items are
+    a sublist of the document (nothing is reordered or duplicated) and a second
+    purge changes nothing -/
+theorem C02_purge_unknown_order (rs : RSchema) (m : List (Key × Val)) :
+    (purgeUnknown rs m).Sublist m ∧ purgeUnknown rs (purgeUnknown rs m) = purgeUnknown rs m := by
+  unfold purgeUnknown
+  exact ⟨List.filter_sublist, by simp [List.filter_filter]⟩
+
+/-- generic fact about `filterM` in the processing monad (through its
+    accumulator loop): when it succeeds the result is a sublist, every survivor's
+    test said `true`, every item whose test said `true` survives, and no test raised -/
+theorem filterAuxM_ok {α : Type} (p : α → M Bool) : ∀ (l acc out : List α), List.filterAuxM p l acc = .ok out →
+    ∃ res : List α, out = res.reverse ++ acc ∧
+    res.Sublist l ∧ (∀ a ∈ res, p a = .ok true) ∧ (∀ a ∈ l, p a = .ok true → a ∈ res) ∧
+    (∀ a ∈ l, ∃ b, p a = .ok b)
+  | [], acc, out, h => by
+    simp only [List.filterAuxM, pure, Except.pure, Except.ok.injEq] at h
+    exact ⟨[], by simp [h], by simp⟩
+  | a :: l, acc, out, h => by
+    simp only [List.filterAuxM, bind, Except.bind] at h
+    cases hp : p a with
+    | error e => simp [hp] at h
+    | ok b =>
+      simp only [hp] at h
+      obtain ⟨res, h0, h1, h2, h3, h4⟩ := filterAuxM_ok p l _ out h
+      cases b with
+      | true =>
+        refine ⟨a :: res, by simp [h0], h1.cons₂ a, ?_, ?_, ?_⟩
+        · intro x hx; rcases List.mem_cons.mp hx with rfl | hx
+          · exact hp
+          · exact h2 x hx
+        · intro x hx hpx; rcases List.mem_cons.mp hx with rfl | hx
+          · exact List.mem_cons_self
+          · exact List.mem_cons_of_mem _ (h3 x hx hpx)
+        · intro x hx; rcases List.mem_cons.mp hx with rfl | hx
+          · exact ⟨true, hp⟩
+          · exact h4 x hx
+      | false =>
+        refine ⟨res, by simp [h0], h1.cons a, h2, ?_, ?_⟩
+        · intro x hx hpx; rcases List.mem_cons.mp hx with rfl | hx
+          · rw [hp] at hpx; cases hpx
+          · exact h3 x hx hpx
+        · intro x hx; rcases List.mem_cons.mp hx with rfl | hx
+          · exact ⟨false, hp⟩
+          · exact h4 x hx
+
+theorem filterM_ok {α : Type} (p : α → M Bool) (l out : List α) (h : l.filterM p = .ok out) :
+    out.Sublist l ∧ (∀ a ∈ out, p a = .ok true) ∧ (∀ a ∈ l, p a = .ok true → a ∈ out) ∧
+    (∀ a ∈ l, ∃ b, p a = .ok b) := by
+  simp only [List.filterM, bind, Except.bind] at h
+  cases hr : List.filterAuxM p l [] with
+  | error e => simp [hr] at h
+  | ok r =>
+    simp only [hr, pure, Except.pure, Except.ok.injEq] at h
+    obtain ⟨res, h0, rest⟩ := filterAuxM_ok p l [] r hr
+    have : out = res := by rw [← h, h0]; simp
+    rw [this]; exact rest
+
+/-- **purge readonly**: when the pass succeeds, the result is the document with
+    exactly the items of `readonly` fields taken out, in the original order: no
+    survivor is a known field with a truthy `readonly`, every item of an unknown
+    field or of a field whose `readonly` is falsy survives, and no present
+    field's rules were an unresolved reference -/
+theorem C02_purge_readonly (rs : RSchema) (m out : List (Key × Val))
+    (h : purgeReadonly rs m = .ok out) :
+    out.Sublist m ∧
+    (∀ kv ∈ out, ∀ r, rlookup rs kv.1 = some (some r) →
+        (get r "readonly" (.bool false)).truthy = false) ∧
+    (∀ kv ∈ m, rlookup rs kv.1 = none → kv ∈ out) ∧
+    (∀ kv ∈ m, ∀ r, rlookup rs kv.1 = some (some r) →
+        (get r "readonly" (.bool false)).truthy = false → kv ∈ out) ∧
+    (∀ kv ∈ m, rlookup rs kv.1 ≠ some none) := by
+  unfold purgeReadonly at h
+  obtain ⟨h1, h2, h3, h4⟩ := filterM_ok _ m out h
+  refine ⟨h1, ?_, ?_, ?_, ?_⟩
+  · intro kv hkv r hr
+    have := h2 kv hkv
+    simp only [hr, pure, Except.pure, Except.ok.injEq] at this
+    simpa using this
+  · intro kv hkv hr
+    exact h3 kv hkv (by simp [hr, pure, Except.pure])
+  · intro kv hkv r hr hf
+    exact h3 kv hkv (by simp [hr, hf, pure, Except.pure])
+  · intro kv hkv hr
+    obtain ⟨b, hb⟩ := h4 kv hkv
+    simp [hr, raisePy] at hb
+
 /-! ### non-vacuity: a two-member chain whose first member raises -/
 def C02_env : Env :=
   { rx := fun _ _ => none, coerce := Family.coerce, hasCoercer := fun _ => false,
@@ -157,5 +249,16 @@ example :
       [(.s "a", .int 1)] (.s "a") false Code.COERCION_FAILED "coerce" []
       [.fn "c_raise", .fn "c_inc"] (.int 1) []).toOption.map (fun r => (r.1.num?, r.2.length))
     = some (some (1, 0), 1) := by decide
+
+/-! ### non-vacuity: a document with a readonly, an ordinary and an unknown field -/
+example :
+    purgeReadonly [(.s "a", some (.dict [(.s "readonly", .bool true)])), (.s "b", some (.dict []))]
+      [(.s "b", .int 1), (.s "a", .int 2), (.s "z", .int 3)]
+    = .ok [(.s "b", .int 1), (.s "z", .int 3)] := rfl
+
+example :
+    purgeUnknown [(.s "a", some (.dict [])), (.s "b", some (.dict []))]
+      [(.s "b", .int 1), (.s "z", .int 3), (.s "a", .int 2)]
+    = [(.s "b", .int 1), (.s "a", .int 2)] := rfl
 
 end Cerberus
